@@ -728,3 +728,18 @@ CONTROLS += [
 
         if tok_type == ":":''')),
 ]
+
+CONTROLS += [
+    pos("peek does not restore the token", ["C09"], ["R9.2"],
+        (L, '''        tok = self.token_eof_ok()
+        if not tok:
+            return False
+        self.tokbuf.appendleft(tok)
+        return tok.type in types''', '''        tok = self.token_eof_ok()
+        if not tok:
+            return False
+        if tok.type in types:
+            self.tokbuf.appendleft(tok)
+            return True
+        return False''')),
+]
